@@ -131,13 +131,42 @@ def check_structure(nodes, start, iterations, count_reported, dist, blocked, tol
                     "the ancestor reached through parent links disagrees with the tree's node at that position")
                 break
         ppos, pcost = ch[0]
-        d = dist(n["pos"], ppos)
+        # (a planner whose distance mode was switched between two growths: the metric in force when THIS node was placed)
+        d = dist.for_child(n["pos"], ppos) if hasattr(dist, "for_child") else dist(n["pos"], ppos)
         if not abs(n["cost"] - (pcost + d)) <= tol:
             bad("cost", {"node": n["pos"], "parent": ppos, "cost": n["cost"], "parent_cost": pcost, "distance": d,
                          "residual": n["cost"] - (pcost + d)})
         if blocked(n["pos"], ppos):
             bad("edge_free", {"node": n["pos"], "parent": ppos})
     return out
+
+
+class PhaseDist:
+    """Distance oracle for a tree grown in several phases with different distance modes: `metrics[k]` is in force from
+    draw number switch_at[k-1] on.  replay_insertions announces the attempt index; the cost clause asks for the metric
+    that was in force when the child was placed."""
+
+    def __init__(self, metrics, switch_at, events):
+        self.metrics, self.switch_at, self.cur = list(metrics), list(switch_at), 0
+        self.placed = {}
+        nd = -1
+        for e in events:
+            if e[0] == "draw":
+                nd += 1
+            elif e[0] == "place":
+                self.placed[_rkey(e[1])] = self._phase(nd)
+
+    def _phase(self, draw_index):
+        return sum(1 for s in self.switch_at if draw_index >= s)
+
+    def attempt(self, ai):
+        self.cur = self._phase(ai)
+
+    def __call__(self, p, q):
+        return self.metrics[self.cur](p, q)
+
+    def for_child(self, child, parent):
+        return self.metrics[self.placed.get(_rkey(child), 0)](child, parent)
 
 
 def split_attempts(events):
@@ -177,9 +206,11 @@ def replay_insertions(start, events, nodes, dmin, dmax, k, dist, blocked, tol=1e
 
     tree = [tuple(start)]
     cost = [0.0]
-    for a in split_attempts(events):
+    for ai, a in enumerate(split_attempts(events)):
         q = a["pos"]
         stats["draws"] += 1
+        if hasattr(dist, "attempt"):
+            dist.attempt(ai)
         for (x, y, v) in a["dist"]:
             if not abs(v - dist(x, y)) <= tol:
                 bad("distance_value", {"a": x, "b": y, "callback": v, "oracle": dist(x, y)})
